@@ -476,8 +476,17 @@ class BADS:
                 + "and plausible bounds should not be too close. "
                 + "Moving plausible bounds."
             )
-            plausible_lower_bounds = np.maximum(plausible_lower_bounds, LB_eff)
-            plausible_upper_bounds = np.minimum(plausible_upper_bounds, UB_eff)
+            moved_plb = np.maximum(plausible_lower_bounds, LB_eff)
+            moved_pub = np.minimum(plausible_upper_bounds, UB_eff)
+            # Do not move plausible bounds past each other (plausible box
+            # lying entirely next to a hard bound)
+            keep_order = moved_plb < moved_pub
+            plausible_lower_bounds = np.where(
+                keep_order, moved_plb, plausible_lower_bounds
+            )
+            plausible_upper_bounds = np.where(
+                keep_order, moved_pub, plausible_upper_bounds
+            )
 
         # Check that all X0 are inside the plausible bounds,
         # move bounds otherwise
